@@ -30,6 +30,12 @@ VARIANTS = {
     "O3":      ("gcc",   ["-O3", "-g", "-w", "-fno-strict-aliasing"], [], None),
     "O1":      ("gcc",   ["-O1", "-g", "-w", "-fno-strict-aliasing"], [], None),
     "clangO2": ("clang", ["-O2", "-g", "-w", "-fno-strict-aliasing"], [], None),
+    "clangO3": ("clang", ["-O3", "-g", "-w", "-fno-strict-aliasing"], [], None),
+    # link-time optimisation: objects hold compiler IR; C18 links them together with its callers
+    "ltogcc":   ("gcc",   ["-O2", "-flto", "-w", "-fno-strict-aliasing"], ["-flto=16", "-O2"], None),
+    "ltogccO3": ("gcc",   ["-O3", "-flto", "-w", "-fno-strict-aliasing"], ["-flto=16", "-O3"], None),
+    "ltoclang": ("clang", ["-O2", "-flto", "-w", "-fno-strict-aliasing"], ["-flto", "-fuse-ld=lld", "-O2"], None),
+    "ltoclangO3": ("clang", ["-O3", "-flto", "-w", "-fno-strict-aliasing"], ["-flto", "-fuse-ld=lld", "-O3"], None),
 }
 
 
@@ -129,6 +135,12 @@ def build(variant, quiet=True):
     finally:
         fcntl.flock(lock, fcntl.LOCK_UN)
         lock.close()
+
+
+def objects(variant):
+    """object files of a built variant (LTO variants: compiler IR)"""
+    so = build(variant)
+    return sorted(glob.glob(os.path.join(os.path.dirname(so), "obj", "*.o")))
 
 
 if __name__ == "__main__":
